@@ -51,6 +51,13 @@ class EncodeResultClobbered(Exception):
     pass
 
 
+class DecodeResultClobbered(Exception):
+    pass
+
+
+_held_dec = None
+
+
 def w_encode(case):
     from fcp import serde
 
@@ -104,6 +111,15 @@ def w_decode(case):
     try:
         try:
             v = serde.decode(fcp, case["struct"], bytearray(case["bytes"]))
+            # values handed out by earlier decode() calls must not change when decode() is called again
+            import copy
+            global _held_dec
+            if _held_dec is not None and _held_dec[0] != _held_dec[1]:
+                was = _held_dec
+                _held_dec = None
+                raise DecodeResultClobbered("a value returned by an earlier decode() changed after a later decode(): was "
+                                            + repr(was[1])[:200] + " now " + repr(was[0])[:200])
+            _held_dec = (v, copy.deepcopy(v))
             return {"value": v, "reads": cnt.reads, "decodes": cnt.decodes}
         except OverflowError:
             return {"cap": True, "reads": cnt.reads, "decodes": cnt.decodes}
@@ -590,7 +606,7 @@ def run(prop, tier, replay=None):
         "every truncation point, corrupted length prefixes/flags, random mutations, _Buffer op sequences"
     )
     rep.assumptions += [
-        "floats travel as IEEE words; NaN payloads excluded; strings are 7-bit",
+        "floats travel as IEEE words; NaN payloads excluded; strings travel as their UTF-8 bytes",
         "struct values are compared positionally in ascending field id",
     ]
     return rep.finish()
